@@ -1,4 +1,5 @@
 import NpsVerif.Proofs.BitPack
+import NpsVerif.Proofs.BitAddr
 /-! `unpack`, `getitem`, `sliding_window` on the registers `(stream >>> 64 r) % 2^64` (C13). -/
 namespace Proofs.BitOps
 open Model.BitArray Proofs.Bits Proofs.BitPack
@@ -230,8 +231,11 @@ theorem getitemList_pack (a : List Nat) (b : Nat) (hb0 : 0 < b) (hb : b ∣ 64) 
     exact ha _ (List.getElem_mem _)
   have h4 := unpack_pack _ b hb0 hb h3
   rw [List.length_map] at h4
+  have hn : 0 < 64 / b := Nat.div_pos (Nat.le_of_dvd (by decide) hb) hb0
+  have hfun : getitemK (pack a b) b = getitem (pack a b) b :=
+    funext (fun i => Proofs.BitAddr.getitemK_eq _ b i hn)
   unfold getitemList
-  rw [h1, h2]
+  rw [hfun, h1, h2]
   simp only [Option.map_some]
   rw [h4]
 
